@@ -47,21 +47,21 @@ def build():
         r is Err ==> final(w).spawned == old(w).spawned
             || (proc_of(*hook, data) matches Some(p) && final(w).spawned == old(w).spawned.push(p)), //@C10.error_leaves_at_most_this_process
 """, loops={1: """
-    invariant render_all(lst@.take(it.index@), data) == Some(strs(v@)), hook.args == Some(*lst), *w == *old(w),
+    invariant render_all($lst@.take(it.index@), data) == Some(strs($v@)), hook.args == Some(*$lst), *w == *old(w),
 """, 2: """
     invariant proc_of(*hook, data) matches Some(p) && w.spawned == old(w).spawned.push(p),
-"""}, at=[("before", "lst.iter()", 1, "it:"),
-          ("before_stmt", "for fmt in", 1, "proof { assert(lst@.take(0) =~= Seq::<String>::empty()); assert(strs(v@) =~= Seq::<Seq<char>>::empty()); }"),
-          ("after_stmt", "v.push(s)", 1, """
+"""}, at=[("before", "$lst.iter()", 1, "it:"),
+          ("before_stmt", "for $fmt in", 1, "proof { assert($lst@.take(0) =~= Seq::<String>::empty()); assert(strs($v@) =~= Seq::<Seq<char>>::empty()); }"),
+          ("after_stmt", "$v.push($s)", 1, """
                 proof {
                     let k = it.index@;
-                    assert(lst@.take(k + 1).drop_last() =~= lst@.take(k));
-                    assert(lst@.take(k + 1).last() == lst@[k]);
-                    assert(strs(v@) =~= strs(v_before@).push(s_view));
+                    assert($lst@.take(k + 1).drop_last() =~= $lst@.take(k));
+                    assert($lst@.take(k + 1).last() == $lst@[k]);
+                    assert(strs($v@) =~= strs(v_before@).push(s_view));
                 }"""),
-          ("before_stmt", "v.push(s)", 1, "let ghost v_before = v; let ghost s_view = s@;"),
-          ("before_stmt", "v.as_slice()", 1, "proof { assert(lst@.take(lst@.len() as int) =~= lst@); }"),
-          ],
+          ("before_stmt", "$v.push($s)", 1, "let ghost v_before = $v; let ghost s_view = $s@;"),
+          ("before_stmt", "$v.as_slice()", 1, "proof { assert($lst@.take($lst@.len() as int) =~= $lst@); }"),
+          ], names={"lst": r"Some\((\w+)\) => \{\s*for \w+ in \w+\.iter\(\)", "v": r"let mut (\w+) = vec!\[\];", "s": r"let (\w+) = render_template\(\w+, &data\)\?;", "fmt": r"for (\w+) in \w+\.iter\(\) \{\s*let \w+ = render_template"},
         rewrites=[("T-FMT", r"format!\(\"\{\}\\n\", line\?\)", 'crate::vproc::cat2(&line?, "\\n")')])})
     m, hdr = filter_loop(H, "call")
     cond = m.group("c")
